@@ -557,7 +557,7 @@ Lemma demo_obj_copy :
   let ops := [OInpl None FReverse 1 [PI 0]; OMut (MSetLit (bs "b"%bs) (TInt 2)) 1 [PI 0; pmeta; PK (bs "a"%bs)];
               OMut (MDelIdx 1) 1 []; OInpl (Some 1) FLower 1 []; OBin None BSetFts 1 [PI 0] 1 [PI 0; pmeta; pfts];
               OMut (MAppendFeat (FeatLit None [LocLit 0 1 (bs "-"%bs) 0 (TMap TgDict [])] (TMap TgDict []))) 1 [PI 0; pmeta; pfts]] in
-  exists s1, ostep (OPure 1 PCopy 0 []) (oexec pre oinit) = inl (s1, HRef 16) /\ 1 < nregs /\
+  exists s1, ostep (OPure 1 PCopy 0 []) (oexec pre oinit) = inl (s1, HRef 15) /\ 1 < nregs /\
              forallb (oregs_in (only 1)) ops = true /\
              wf_C18_obj (pre ++ [OPure 1 PCopy 0 []] ++ ops) = true /\
              view 99 (oexec ops s1) 1 <> view 99 s1 1 /\
